@@ -480,6 +480,8 @@ def run(tier, seed):
     import djsetup
     djsetup.setup()
     djsetup.patch_ids()
+    import gen_constants
+    gen_constants.generate(["C14"])
     chk = C.Check("C14", tier, seed)
     chk.prove()
     thorough = tier == "thorough"
@@ -513,6 +515,7 @@ def run(tier, seed):
     bad = C.coq_eval_cases("C14", "doc", IMPORTS, "c14_case", "check_c14", terms, shard=400, timeout=900)
     for i in bad[:20]:
         chk.disagree("PostRender model != implementation (element structure / data-djc-id sets / number of instances)", cases[i])
+    placeholder_differential(chk, 3000 if thorough else 600)
     # ---- real (random) ids: direct oracle only ----
     real_ids(chk, 600 if thorough else 120)
     chk.assumptions = [
@@ -534,9 +537,49 @@ def run(tier, seed):
                     "of the implementation's output, and the number of instances must equal the number of Component.id values reported; "
                     "direct oracle: begin/end markers echoing Component.id delimit each instance's output - every element at the top level "
                     "of that span carries data-djc-id-<id>, no other element does, ids pairwise distinct, no placeholder survives.",
-        extra_trusted=["modelled, not verified: djc_core_html_parser.set_html_attributes (as: add the attributes to every top-level element "
+        extra_trusted=["harness/gen_c14.py (prints the placeholder regexes, the placeholder text, the id alphabet/length of /repo as Coq literals)",
+                       "modelled, not verified: djc_core_html_parser.set_html_attributes (as: add the attributes to every top-level element "
                        "and placeholder, report the attributes set on every placeholder), Django template rendering of the generated tags "
                        "(expand), Python's re on the placeholder pattern (as: split at placeholders), html.parser (harness side)"])
+
+
+PIECES = ["<template ", 'djc-render-id="', "abc123", "aB_12Z", "a0001", "a1b2c3d", '"', ">", "</template>", " ", "x",
+          ' data-djc-id-a1b2c3=""', "<", "></template>", "\n", "é"]
+
+
+def placeholder_differential(chk, nrandom):
+    """Hand matcher of the model (match_placeholder_at) vs Python re compiled from the CURRENT source patterns."""
+    import django_components.perfutil.component as P
+    strings = []
+    for L in (1, 2, 3):
+        for seq in itertools.product(PIECES[:12], repeat=L):
+            strings.append("".join(seq))
+    for L in (4, 5, 6, 7):
+        for seq in itertools.product([0, 1, 2, 6, 7, 9, 11, 13], repeat=L):
+            if seq[0] == 0 and 1 in seq:
+                strings.append("".join(PIECES[i] for i in seq))
+    for _ in range(nrandom):
+        strings.append("".join(chk.rng.choice(PIECES[:15]) for _ in range(chk.rng.randint(3, 12))))
+    strings.append('<template djc-render-id="a1b2c3" data-djc-id-Zz0Zz0="" data-djc-id-000000=""></template><p>')
+    terms, kept = [], []
+    for s in strings:
+        if any(ord(c) > 127 for c in s):
+            continue
+        m = P.nested_comp_pattern.match(s)
+        if m is None:
+            exp = "None"
+        else:
+            g = P.render_id_pattern.search(m[0])
+            if g is None:
+                chk.fail("c14-placeholder-regex", "nested_comp_pattern matched but render_id_pattern found no id", {"text": s})
+                continue
+            exp = "(Some (%s, %s))" % (C.cstr(g.group("render_id")), cN(len(s) - m.end()))
+        chk.count(("ph", s), m is not None, kind="matcher")
+        terms.append("(%s, %s)" % (C.cstr(s), exp))
+        kept.append(s)
+    bad = C.coq_eval_cases("C14", "ph", IMPORTS, "ph_case", "check_ph", terms, shard=3000)
+    for i in bad[:10]:
+        chk.disagree("hand matcher of the placeholder patterns != Python re on the current source patterns", {"text": kept[i]})
 
 
 def real_ids(chk, n):
